@@ -2430,16 +2430,14 @@ class Scene:
             # Forward
             pert_state[variable][index] += perturbation
             self._airplanes[aircraft_name].set_state(**pert_state)
-            if variable == "position":
-                self._perform_geometry_and_atmos_calcs()
+            self._perform_geometry_and_atmos_calcs() # Always: the previous perturbation may have been in position or orientation
             self.solve_forces(nondimensional=False, **kwargs)
             FM_fwd = copy.deepcopy(self._FM)
 
             # Backward
             pert_state[variable][index] -= 2.0*perturbation
             self._airplanes[aircraft_name].set_state(**pert_state)
-            if variable == "position":
-                self._perform_geometry_and_atmos_calcs()
+            self._perform_geometry_and_atmos_calcs() # Always: the previous perturbation may have been in position or orientation
             self.solve_forces(nondimensional=False, **kwargs)
             FM_bwd = copy.deepcopy(self._FM)
 
